@@ -744,8 +744,7 @@ class Script(object):
                         if method_name == 'op_checksig' or method_name == 'op_checksigverify':
                             res = method(self.message)
                         elif method_name == 'op_checkmultisig':
-                            method(self.message, self.env_data)
-                            res = self.stack.op_verify()
+                            res = method(self.message, self.env_data) and self.stack.op_verify()
                             self.stack.append(self.env_data['redeemscript'])
                         elif method_name == 'op_checkmultisigverify':
                             res = method(self.message, self.env_data)
@@ -1197,11 +1196,19 @@ class Stack(list):
         return self.op_checksig(message, None) and self.op_verify()
 
     def op_checkmultisig(self, message, data=None):
+        if not self.is_arithmetic():
+            return False
         n = decode_num(self.pop())
+        if not 0 <= n <= 20:
+            return False
         pubkeys = []
         for _ in range(n):
             pubkeys.append(self.pop())
+        if not self.is_arithmetic():
+            return False
         m = decode_num(self.pop())
+        if not 0 <= m <= n:
+            return False
         signatures = []
         for _ in range(m):
             signatures.append(self.pop())
@@ -1210,6 +1217,8 @@ class Stack(list):
             self.pop()
         sigcount = 0
         for pubkey in pubkeys:
+            if sigcount >= len(signatures) or signatures[sigcount] == b'':
+                break
             s = Signature.parse_bytes(signatures[sigcount])
             if s.verify(message, pubkey):
                 sigcount += 1
